@@ -249,6 +249,14 @@ def run_random(ns, ctx, rnd, n):
                         ctx.violation('__add__:exception', {'op': 'add', 'set': ll, 'epoch': str(ep)}, {'exception': repr(e)})
         args = ['ITRF%d' % rnd.randint(1988, 2020), 'ITRF%d' % rnd.randint(1988, 2020), rand_epoch(rnd)] + \
                [round(rnd.uniform(-100, 100), rnd.choice([1, 2, 3])) for _ in range(14)]
+        if i % 2:
+            # table-like rows: most entries exactly zero (as in the published ITRF tables), every pattern of zero / non-zero
+            # parameters against zero / non-zero rates
+            vals = args[3:]
+            for j in range(14):
+                if rnd.random() < 0.55:
+                    vals[j] = rnd.choice([0.0, 0, 0.0, -0.0])
+            args = args[:3] + vals
         ctx.bucket('iers', sum(1 for a in args[3:] if a < 0) // 4)
         judge_iers(ns, ctx, args)
         if i < 1:
